@@ -310,6 +310,45 @@ pub fn run(ctx: &Ctx) -> CheckResult {
     }
     res.extra.insert("minmax_multi_deviation_sequences".into(), json!(devfam_seqs));
 
+    // 2^32 + 2048 calls on one instance (a cursor / fill counter in a 32-bit type wraps there): the last 4000
+    // steps - before, at and after the wrap - against the reference on the last window
+    if !res.out.failed() {
+        let mut hz: Vec<Cfg> = vec![Cfg::p1(Kind::Sd, 20), Cfg::p1(Kind::Sma, 10)];
+        if th {
+            hz.extend([Cfg::p1(Kind::Wma, 9), Cfg::p1(Kind::Min, 14), Cfg::p1(Kind::Max, 10), Cfg::pm(Kind::Bb, 20, 2.0)]);
+        }
+        let outs = par_run(ctx, &hz, |_, cfg| {
+            let mut out = JobOut::default();
+            let n = cfg.p[0];
+            out.stats.traces += 1;
+            out.stats.transitions += super::refcmp::CALLS_PAST_2_32;
+            match run_past_2_32(cfg, ctx.seed ^ 0x3201) {
+                Err(done) => out.fail(Violation::new(PROP, cfg, &[], "panic").obs(format!("panic in call number {}", done + 1)).exp("outputs".into())),
+                Ok((ops, outs)) => {
+                    let total = super::refcmp::CALLS_PAST_2_32 as usize;
+                    for k in (n + 64)..ops.len() {
+                        // (the reference needs the window only; tau(t) is taken at the true call number)
+                        let step = total - (ops.len() - 1 - k);
+                        let hist = &ops[k + 1 - n..=k];
+                        let mut r = crate::refm::reference(cfg, hist);
+                        r.m = 16.75;
+                        out.stats.states += 1;
+                        match crate::oracle::compare_with(cfg, step, &r, &outs[k]) {
+                            crate::oracle::Verdict::Ok(_) => out.stats.evaluations += 1,
+                            crate::oracle::Verdict::Skip(_) => out.stats.skipped += 1,
+                            crate::oracle::Verdict::Fail { obs, exp, detail } => {
+                                out.fail(Violation::new(PROP, cfg, hist, "value-mismatch").obs(obs).exp(exp).det(format!("{} [call number {} on one instance (2^32 = 4294967296), tolerance tau(t) for that t; ops shown = the current window]", detail, step)));
+                                return out;
+                            }
+                        }
+                    }
+                }
+            }
+            out
+        });
+        res.extra.insert("calls_on_one_instance".into(), json!(super::refcmp::CALLS_PAST_2_32));
+        res.absorb(merge_jobs(outs));
+    }
     // Default::default() instances against the reference for the parameters they report
     if !res.out.failed() {
         let mut o = JobOut::default();
